@@ -405,6 +405,7 @@ type LoopSpec struct {
 	Invariants []*Clause
 	Decreases  *Clause
 	Unroll     int // >0: unroll with unwinding assertion instead of cutting
+	SplitPaths bool // verify the loop body once per path through its if statements (no merging at their joins)
 }
 
 type FuncContract struct {
@@ -793,6 +794,8 @@ func ParseContractText(data, path, pkg string) (*ContractFile, error) {
 					return nil, errf(rc, "bad unroll count")
 				}
 				ls.Unroll = k
+			case "split-paths":
+				ls.SplitPaths = true
 			default:
 				return nil, errf(rc, "unknown loop clause %q", f[1])
 			}
